@@ -10,7 +10,7 @@
     offset of the base field in the emitted struct (the declared address, by C01). *)
 From Coq Require Import List NArith ZArith Bool String Lia.
 From PyxisModel Require Import Base Grammar SemTypes Registry Sem SemLemmas PlacementLemmas
-     InheritLemmas RustExec ExecLemmas.
+     InheritLemmas RustExec ExecLemmas WholeBuild WholeBuildMore.
 Import ListNotations.
 
 Theorem C07_functions : forall R bases acc acc',
@@ -44,3 +44,27 @@ Theorem C07_subobject_offset : forall R rs name off ty,
   exists r, In (off, r) (offsets_of R 0%N rs) /\ r_name r = Some name /\ r_type r = ty.
 Proof. intros. eapply field_offset_in_offsets; eauto. Qed.
 Print Assumptions C07_subobject_offset.
+
+(** ** End to end (WholeBuildMore.v): the per-attempt theorems above, for every item of every accepted
+    [collision_free] build, in terms of the FINAL registry *)
+Theorem C07_whole_build : forall order ptr mods st0 st p it0 gd td0 it r td,
+  input_state ptr mods = Ok st0 -> collision_free (st_reg st0) ->
+  pyxis_resolve order ptr mods = BOk st ->
+  reg_get (st_reg st0) p = Some it0 -> it_state it0 = Unresolved gd -> gi_inner gd = GIType td0 ->
+  reg_get (st_reg st) p = Some it -> it_state it = Resolved r -> rs_inner r = IType td ->
+  let used0 := match td_vftable td with Some vt => map sf_name (vt_functions vt) | None => [] end in
+  exists contribs news own parent module0 R_mid,
+    base_contributions (st_reg st) (filter r_is_base (td_regions td)) O = Ok contribs /\
+    td_assoc td = fst (forward_all contribs ([], used0)) ++ own /\
+    fst (forward_all contribs ([], used0)) = List.concat news /\
+    Forall2 (fun c new => Forall2 (forwards (fst c)) (snd c) new) contribs news /\
+    (* the rest: the type's own impl block *)
+    path_parent p = Some parent /\ alookup parent (st_modules st0) = Some module0 /\
+    ext (st_reg st0) R_mid (st_reg st) /\
+    match alookup p (m_impls module0) with
+    | Some blk => Forall2 (fun f sf => function_build R_mid (module_scope module0) false f = Ok sf) (gb_fns blk) own
+    | None => own = []
+    end.
+Proof. exact WholeBuildMore.C07_whole_build. Qed.
+Print Assumptions C07_whole_build.
+
